@@ -60,7 +60,10 @@ Ep_q == {R(5, 1), R(392, 5), R(100, 1)}
 Ep_t == {R(5, 1), R(20, 1), R(111, 2), R(392, 5), R(801, 10), R(100, 1)}
 Rh_q == {R(500, 1), R(9982071, 10000), R(1500, 1)}
 Rh_t == {R(500, 1), R(800, 1), R(958, 1), R(997, 1), R(9982071, 10000), R(1200, 1), R(1500, 1)}
-ABPts_q == ABPts(T_q, Ep_q, Rh_q)
+(* reference molalities other than 1 mol/kg: A and B scale with sqrt(b0) *)
+ABPtsB(Ts, Es, Rs, Bs) == { [PBase EXCEPT !.kind = k, !.T = t, !.eps = e, !.rho = r, !.b0 = b] :
+                             k \in {"A", "B"}, t \in Ts, e \in Es, r \in Rs, b \in Bs }
+ABPts_q == ABPts(T_q, Ep_q, Rh_q) \cup ABPtsB({R(5963, 20)}, {R(392, 5)}, {R(997, 1), R(500, 1)}, {R(1, 4), R(2, 1)})
 (* activity products: stoichiometry / charge / ion size (pm) patterns *)
 Salts == { [nus |-> <<Q(1), Q(1)>>, zs |-> <<Q(1), Q(-1)>>, pm |-> <<400, 300>>],
            [nus |-> <<Q(1), Q(2)>>, zs |-> <<Q(2), Q(-1)>>, pm |-> <<800, 300>>],
@@ -69,7 +72,9 @@ Salts == { [nus |-> <<Q(1), Q(1)>>, zs |-> <<Q(1), Q(-1)>>, pm |-> <<400, 300>>]
            [nus |-> <<Q(1), Q(4)>>, zs |-> <<Q(4), Q(-1)>>, pm |-> <<1100, 300>>],
            \* uncharged participants (H+ + A- -> HA;  a salt with a neutral co-solute)
            [nus |-> <<Q(-1), Q(-1), Q(1)>>, zs |-> <<Q(1), Q(-1), Q(0)>>, pm |-> <<900, 400, 300>>],
-           [nus |-> <<Q(1), Q(2), Q(3)>>, zs |-> <<Q(2), Q(-1), Q(0)>>, pm |-> <<800, 300, 250>>] }
+           [nus |-> <<Q(1), Q(2), Q(3)>>, zs |-> <<Q(2), Q(-1), Q(0)>>, pm |-> <<800, 300, 250>>],
+           \* fractional stoichiometry
+           [nus |-> <<R(1, 2), Q(1)>>, zs |-> <<Q(2), Q(-1)>>, pm |-> <<800, 300>>] }
 ProdPts(Ks, Is, Ts, Es, Rs, Cs) ==
     { [PBase EXCEPT !.kind = k, !.IS = i, !.T = t, !.eps = e, !.rho = r,
                     !.C = IF k = "dap" THEN R(-3, 10) ELSE IF k = "lap" THEN QZero ELSE c,
